@@ -8,7 +8,9 @@ import (
 	"context"
 	"encoding/json"
 	"fmt"
+	udpClient "github.com/plgd-dev/go-coap/v3/udp/client"
 	"io"
+	"strings"
 	"sync"
 	"sync/atomic"
 	"testing"
@@ -55,6 +57,11 @@ type Scenario struct {
 	// path holds the limit while a request to the operation's path times out waiting for it; then the
 	// holder is cancelled. The limiter is idle again - the operation meets the connection as if nothing had happened
 	LeakProbe bool `json:"leakProbe,omitempty"`
+	// Wrapped (datagram, Queued == "", NSTART 1): the connection is an old one - a ping it sent long
+	// ago was never answered and is still pending, the application has drawn 65535 message IDs since
+	// (Conn.GetMessageID), and a request that thereby drew the ping's ID was refused a moment ago.
+	// The operation meets the connection as if nothing had happened.
+	Wrapped bool `json:"wrapped,omitempty"`
 }
 
 type conn interface {
@@ -87,7 +94,7 @@ func Exec(t *testing.T, sc Scenario, r *evid.Run) *evid.Failure {
 		if sc.Queued == "limiter" || sc.LeakProbe {
 			limit = 1
 		}
-		if sc.Queued == "nstart" {
+		if sc.Queued == "nstart" || sc.Wrapped {
 			nstart = 1
 		}
 		bwOn := sc.Op == "post-bw"
@@ -169,6 +176,25 @@ func Exec(t *testing.T, sc Scenario, r *evid.Run) *evid.Failure {
 			vcancel()
 			hcancel()
 			<-hdone
+			bubble.Wait()
+			_ = w.FromLib()
+		}
+		if u, ok := cc.(*udpClient.Conn); ok && sc.Wrapped {
+			if cancelPing, err := u.AsyncPing(func() {}); err == nil {
+				defer cancelPing()
+			}
+			bubble.Wait()
+			_ = w.FromLib()
+			for k := 0; k < 65535; k++ {
+				u.GetMessageID()
+			}
+			vctx, vcancel := context.WithTimeout(context.Background(), 200*time.Millisecond)
+			if req, err := cc.NewGetRequest(vctx, "/refused"); err == nil {
+				if _, err := cc.Do(req); err != nil && strings.Contains(err.Error(), "already exist") {
+					r.Class("interrupt/wrapped-prelude-request-was-refused", 1)
+				}
+			}
+			vcancel()
 			bubble.Wait()
 			_ = w.FromLib()
 		}
@@ -531,6 +557,7 @@ func gen(t *rapid.T) Scenario {
 	}
 	sc.Neighbour = sc.Transport == "udp" && rapid.IntRange(0, 2).Draw(t, "neighbour") == 0
 	sc.LeakProbe = sc.Queued == "" && rapid.IntRange(0, 3).Draw(t, "leakprobe") == 0
+	sc.Wrapped = sc.Queued == "" && !sc.LeakProbe && sc.Transport == "udp" && rapid.IntRange(0, 4).Draw(t, "wrapped") == 0
 	peers := []string{"silent", "silent", "ack", "garbage", "blocks"}
 	if sc.Transport == "tcp" {
 		peers = append(peers, "stall", "close")
